@@ -42,11 +42,11 @@ theorem IK_of_cons {s s1 : St} {o : Out} (h : s1.cons = s.cons) (hk : IK s1 o) :
 
 theorem stopCons_ik (s : St) (cids : List Nat) : IK s (stopCons s cids) := by
   refine IK_map _ rfl (fun c => ?_)
-  simp only []; split <;> rfl
+  split <;> rfl
 theorem stopConsumers_ik (s : St) : IK s (stopConsumers s) := stopCons_ik _ _
 theorem beginDrain_ik (s : St) : IK s ((beginDrain s).1, (beginDrain s).2.1) := by
   refine IK_map _ rfl (fun c => ?_)
-  simp only []; split
+  split
   · split <;> rfl
   · rfl
 
@@ -169,25 +169,234 @@ theorem prepare_ik (s : St) : IK s (prepare s) := by
       · exact IK_andThen (IK_andThen (beginDrain_ik s) (fun _ => drainDone_ik _ _ _)) (fun _ => IK_frame (afterPrepare_cons' _))
       · exact fun c' hc' => beginDrain_ik s c' hc'
 
+theorem IK_trans {s s0 : St} {o : Out} (h0 : ∀ c' ∈ s0.cons, ∃ c ∈ s.cons, ident c = ident c') (h1 : IK s0 o) : IK s o := by
+  intro c' hc'
+  obtain ⟨c1, hc1, e1⟩ := h1 c' hc'
+  obtain ⟨c, hc, e⟩ := h0 c1 hc1
+  exact ⟨c, hc, e.trans e1⟩
+
 theorem consumerDown_ik (cfg : Cfg) (s : St) (cid : Nat) (ok : Bool) : IK s (consumerDown cfg s cid ok) := by
-  have h0 : IK s ({ s with cons := s.cons.map fun (c : Con) => if c.cid = cid && c.phase == .draining then { c with phase := .stopped, startFired := true } else c }, []) := by
-    refine IK_map _ rfl (fun c => ?_)
-    simp only []; split <;> rfl
+  have h0 : ∀ c' ∈ (s.cons.map fun (c : Con) => if c.cid = cid && c.phase == .draining then { c with phase := .stopped, startFired := true } else c),
+      ∃ c ∈ s.cons, ident c = ident c' := by
+    intro c' hc'
+    obtain ⟨c, hc, rfl⟩ := List.mem_map.mp hc'
+    refine ⟨c, hc, ?_⟩
+    split <;> rfl
   unfold consumerDown
   simp only []
   split
   · split
     · exact fun c' hc' => h0 c' hc'
-    · refine fun c' hc' => ?_
-      have := IK_andThen (IK_andThen h0 (fun s1 => drainDone_ik { s1 with prep := ⟨[], []⟩ } _ ok)) (fun _ => IK_frame (afterPrepare_cons' _))
-      exact this c' (by simpa [andThen] using hc')
+    · exact IK_trans (s0 := { s with cons := s.cons.map fun (c : Con) => if c.cid = cid && c.phase == .draining then { c with phase := .stopped, startFired := true } else c }) h0
+        (IK_andThen (IK_of_cons rfl (drainDone_ik _ _ _)) (fun _ => IK_frame (afterPrepare_cons' _)))
   · split
     · exact fun c' hc' => h0 c' hc'
     · split
       · exact fun c' hc' => h0 c' hc'
-      · refine fun c' hc' => ?_
-        rename_i a co b _ _
-        have := IK_andThen (IK_andThen h0 (fun s1 => drainDone_ik { s1 with stops := a ++ b } _ ok)) (fun s1 => stopLoop_ik cfg s1 co.err co.user)
-        exact this c' (by simpa [andThen] using hc')
+      · exact IK_trans (s0 := { s with cons := s.cons.map fun (c : Con) => if c.cid = cid && c.phase == .draining then { c with phase := .stopped, startFired := true } else c }) h0
+          (IK_andThen (IK_of_cons rfl (drainDone_ik _ _ _)) (fun _ => stopLoop_ik _ _ _ _))
+
+/-- a step keeps every consumer record's identity; a new record is the one of a `consumerStart`
+    observation of that step -/
+theorem step_ident (cfg : Cfg) (s : St) (e : Ev) : ∀ c' ∈ (step cfg s e).1.cons,
+    (∃ c ∈ s.cons, ident c = ident c') ∨
+    (∃ off, Ob.consumerStart c'.cid c'.topic c'.part c'.gen c'.member off ∈ (step cfg s e).2) := by
+  have old : ∀ {s1 : St} {o : Out}, IK s1 o → s1.cons = s.cons → ∀ c' ∈ o.1.cons,
+      (∃ c ∈ s.cons, ident c = ident c') ∨ (∃ off, Ob.consumerStart c'.cid c'.topic c'.part c'.gen c'.member off ∈ o.2) :=
+    fun hk he c' hc' => Or.inl (IK_of_cons he hk c' hc')
+  have same : ∀ (obs : List Ob), ∀ c' ∈ s.cons,
+      (∃ c ∈ s.cons, ident c = ident c') ∨ (∃ off, Ob.consumerStart c'.cid c'.topic c'.part c'.gen c'.member off ∈ obs) :=
+    fun _ c' hc' => Or.inl ⟨c', hc', rfl⟩
+  cases e with
+  | start =>
+    simp only [step]; split
+    · exact same _
+    · exact old (IK_frame (joinAndSync_cons' _)) rfl
+  | stop => exact old (stopCall_ik cfg s none true) rfl
+  | coordDone r =>
+    simp only [step]; split
+    · exact same _
+    · cases r with
+      | ok => exact same _
+      | none => exact same _
+      | err e =>
+        simp only []
+        split
+        · exact old (escape_ik cfg s e) rfl
+        · exact same _
+        · exact same _
+  | metaDone r =>
+    simp only [step]; split
+    · exact same _
+    · cases r with
+      | err e => exact old (escape_ik cfg s e) rfl
+      | ok =>
+        simp only []
+        split
+        · exact same _
+        · exact old (prepare_ik { s with coordBroker := true }) rfl
+  | joinDone r =>
+    simp only [step]; split
+    · exact same _
+    · cases r with
+      | err e => exact old (IK_andThen (rejoinAfterError_ik cfg { s with jpc := .idle } e) (fun _ => IK_frame rfl)) rfl
+      | ok m g l n =>
+        simp only []
+        split
+        · exact same _
+        · split <;> exact same _
+  | partsDone r =>
+    simp only [step]; split
+    · cases r with
+      | err e => exact old (escape_ik cfg s e) rfl
+      | ok => simp only []; split <;> exact same _
+    · exact same _
+  | syncDone r =>
+    simp only [step]; split
+    · exact same _
+    · cases r with
+      | err e => exact old (IK_andThen (rejoinAfterError_ik cfg { s with jpc := .idle } e) (fun _ => IK_frame rfl)) rfl
+      | ok a =>
+        simp only []
+        split
+        · exact same _
+        · intro c' hc'
+          simp only [andThen_fst, andThen_snd] at hc' ⊢
+          unfold startConsumers at hc' ⊢
+          simp only [resetHeartbeat_cons'] at hc' ⊢
+          rcases List.mem_append.mp hc' with x | x
+          · exact Or.inl ⟨c', x, rfl⟩
+          · right
+            refine ⟨groupConsumerStartOffset, List.mem_append_right _ ?_⟩
+            exact List.mem_map.mpr ⟨c', x, rfl⟩
+  | hbDone r =>
+    simp only [step]; split
+    · exact same _
+    · cases r with
+      | ok => exact same _
+      | err e =>
+        simp only []
+        split
+        · exact old (IK_andThen (IK_frame (s := { s with hbInFlight := false }) rfl) (fun _ => rejoinAfterError_ik _ _ _)) rfl
+        · exact same _
+  | leaveDone r =>
+    simp only [step]; split
+    · exact same _
+    · cases r with
+      | ok => exact old (finishStop_ik cfg { s with member := 0, gen := none } _ _) rfl
+      | err e => exact old (finishStop_ik cfg s _ _) rfl
+  | consumerDown cid ok =>
+    simp only [step]; split
+    · exact old (consumerDown_ik cfg s cid ok) rfl
+    · exact same _
+  | consumerErr cid e =>
+    simp only [step]; split
+    · have h0 : IK s ({ s with cons := s.cons.map fun c => if c.cid = cid then { c with startFired := true } else c }, []) := by
+        refine IK_map _ rfl (fun c => ?_); split <;> rfl
+      split
+      · exact fun c' hc' => Or.inl (h0 c' hc')
+      · exact fun c' hc' => Or.inl (IK_trans (fun c1 hc1 => h0 c1 hc1) (rejoinAfterError_ik cfg _ e) c' hc')
+    · exact same _
+  | consumerQuirk cid q =>
+    simp only [step]; split
+    · have h0 : IK s ({ s with cons := s.cons.map fun c => if c.cid = cid && c.phase == .running then { c with quirk := q } else c }, []) := by
+        refine IK_map _ rfl (fun c => ?_); split <;> rfl
+      exact fun c' hc' => Or.inl (h0 c' hc')
+    · exact same _
+  | fire id hbNext =>
+    simp only [step]
+    split
+    · exact same _
+    split
+    · exact same _
+    · split
+      · exact same _
+      · split
+        · exact old (IK_frame (joinAndSync_cons' _)) rfl
+        · exact old (IK_frame (joinAndSync_cons' _)) rfl
+        · simp only [andThen_fst]
+          split <;> split <;> exact same _
+  | advance dt => simp only [step]; split <;> exact same _
+
+/-- all observations of a run, in order -/
+def allObs (tr : List (Ev × List Ob × St)) : List Ob := tr.flatMap fun x => x.2.1
+
+theorem ident_runFrom (cfg : Cfg) (evs : List Ev) : ∀ (s : St), ∀ c' ∈ (finalFrom cfg s evs).cons,
+    (∃ c ∈ s.cons, ident c = ident c') ∨
+    (∃ off, Ob.consumerStart c'.cid c'.topic c'.part c'.gen c'.member off ∈ allObs (runFrom cfg s evs)) := by
+  induction evs with
+  | nil => intro s c' hc'; exact Or.inl ⟨c', hc', rfl⟩
+  | cons e es ih =>
+    intro s c' hc'
+    simp only [finalFrom] at hc'
+    simp only [runFrom, allObs, List.flatMap_cons]
+    rcases ih _ c' hc' with ⟨c1, hc1, e1⟩ | ⟨off, ho⟩
+    · rcases step_ident cfg s e c1 hc1 with ⟨c, hc, e0⟩ | ⟨off, ho⟩
+      · exact Or.inl ⟨c, hc, e0.trans e1⟩
+      · right
+        refine ⟨off, List.mem_append_left _ ?_⟩
+        simp only [ident, Prod.mk.injEq] at e1
+        obtain ⟨a, b, c, d, f⟩ := e1
+        rw [← a, ← b, ← c, ← d, ← f]; exact ho
+    · exact Or.inr ⟨off, List.mem_append_right _ ho⟩
+
+/-- **Identity is fixed at the start**: every partition consumer the group holds a record of was
+    started by a `consumerStart` observation carrying exactly the record's topic, partition,
+    generation and member id — no step ever rewrites them. -/
+theorem ident_from_start (cfg : Cfg) (evs : List Ev) : ∀ c ∈ (final cfg evs).cons,
+    ∃ off, Ob.consumerStart c.cid c.topic c.part c.gen c.member off ∈ allObs (run cfg evs) := by
+  intro c hc
+  rcases ident_runFrom cfg evs init c hc with ⟨c0, hc0, _⟩ | h
+  · simp [init] at hc0
+  · exact h
+
+/-! ## the consumer's commit requests on the wire -/
+
+/-- an OffsetCommit request as `send_offset_commit_request(group, [(topic, partition, offset)],
+    group_generation_id, consumer_id)` puts it on the wire -/
+structure WireCommit where
+  gen : Option Int
+  member : Nat
+  topic : Nat
+  part : Int
+  off : Int
+  deriving DecidableEq, Repr
+
+/-- the wire commits of the `Consumer` object that the group created as record `c`, given the
+    chronological trace of that consumer: each `commitReq` observation of the consumer model is sent
+    with the object's construction-time `commit_generation_id` / `commit_consumer_id` (= the
+    record's; source facts checked by the extractor, constant `groupCommitIdentityFixed`) -/
+def wireCommits (c : Con) (tr : List Afkak.Consumer.Item) : List WireCommit :=
+  tr.filterMap fun
+    | .ob (.commitReq _ off) => some ⟨c.gen, c.member, c.topic, c.part, off⟩
+    | _ => none
+
+/-- **Composition of C16 with the consumer package**: take ANY group history `evs`, any consumer
+    record `c` the group holds after it, and ANY run of the consumer model (any configuration,
+    processor script and event list) as the behaviour of that consumer.  Every commit request it
+    emits carries the (generation, member id) and partition the consumer was STARTED with (there is
+    a `consumerStart` observation in the group's trace with exactly these); and whenever the
+    consumer is still running, that pair is the member's CURRENT generation and member id and the
+    partition is in the current assignment — a commit by a running consumer is never fenced off, and
+    a consumer of an old generation can only commit with the old generation (which the broker
+    rejects). -/
+theorem commit_fencing (cfg : Cfg) (evs : List Ev) (c : Con) (hc : c ∈ (final cfg evs).cons)
+    (ccfg : Afkak.Consumer.Cfg) (script : List Afkak.Consumer.PEntry) (cevs : List Afkak.Consumer.Ev) :
+    ∀ w ∈ wireCommits c (Afkak.Consumer.trace ccfg script cevs),
+      (∃ off, Ob.consumerStart c.cid w.topic w.part w.gen w.member off ∈ allObs (run cfg evs)) ∧
+      (c.phase = .running →
+        w.gen = (final cfg evs).gen ∧ w.member = (final cfg evs).member ∧ (w.topic, w.part) ∈ (final cfg evs).asg) := by
+  intro w hw
+  unfold wireCommits at hw
+  obtain ⟨it, _, hit⟩ := List.mem_filterMap.mp hw
+  have hwe : w = ⟨c.gen, c.member, c.topic, c.part, w.off⟩ := by
+    split at hit
+    · injection hit with hit; rw [← hit]
+    · cases hit
+  rw [hwe]
+  refine ⟨ident_from_start cfg evs c hc, fun hr => ?_⟩
+  have h := final_sinv cfg evs
+  have hh : c.held = true := (h.held_running c hc).mpr hr
+  exact h.held_cur c hc hh
 
 end Afkak.Group
